@@ -909,3 +909,251 @@ Proof.
   destruct (dget (t_pre t) p) eqn:E2; inversion He; subst.
   destruct (HG2 t Ht E1 E2) as [A B]. auto.
 Qed.
+
+(* ------------------------------------------------------------------ (5) stale files do not matter *)
+Lemma add_file_ext : forall f f' t p io n,
+  look f p = look f' p -> look f (parent p) = look f' (parent p) ->
+  (forall T, t_tmp t = Some T -> look f T = look f' T /\ look f (T ++ [n]) = look f' (T ++ [n])) ->
+  snd (add_file f t p io n) = snd (add_file f' t p io n) /\
+  snd (fst (add_file f t p io n)) = snd (fst (add_file f' t p io n)) /\
+  forall q, look f q = look f' q ->
+            look (fst (fst (add_file f t p io n))) q = look (fst (fst (add_file f' t p io n))) q.
+Proof.
+  intros f f' t p io n H1 H2 H3. unfold add_file.
+  assert (Hc : add_check f' p io = add_check f p io) by (unfold add_check; rewrite <- H1, <- H2; reflexivity).
+  rewrite Hc. destruct (negb (add_check f p io =? 0)); [simpl; auto|].
+  destruct (t_tmp t) as [T|] eqn:ET; [|simpl; rewrite H1; auto].
+  destruct (H3 T eq_refl) as [HT Htp]. rewrite <- Htp.
+  destruct (negb (n_is_absent (look f (T ++ [n]))) || path_eqb (T ++ [n]) p) eqn:El; [simpl; auto|].
+  apply orb_false_iff in El. destruct El as [El1 El2].
+  unfold mkstemp_clean. rewrite <- HT, <- Htp, <- H1.
+  destruct (negb (n_is_dir (look f T))); [simpl; auto|].
+  rewrite El1. cbv iota. rewrite !look_put_file, !El2, <- H1.
+  destruct (look f p) eqn:Ep; simpl; rewrite ?look_put_file, ?El2, <- ?H1, ?Ep; simpl;
+    (split; [reflexivity|]); (split; [reflexivity|]);
+    intros q Hq; rewrite ?look_put_file; destruct (path_eqb (T ++ [n]) q); auto.
+Qed.
+
+Definition reads (s : state) (o : op) : list path :=
+  match o with
+  | AddFile p _ n =>
+      [p; parent p] ++
+      match s_tr s with
+      | Some t => match t_tmp t with Some T => [T; T ++ [n]] | None => [] end
+      | None => []
+      end
+  | WriteTo p _ => [p; parent p]
+  | _ => []
+  end.
+
+Lemma step_ext : forall s s' o, s_tr s = s_tr s' -> mid_op o = true ->
+  (forall q, In q (reads s o) -> look (s_fs s) q = look (s_fs s') q) ->
+  snd (step s o) = snd (step s' o) /\ s_tr (fst (step s o)) = s_tr (fst (step s' o)) /\
+  forall q, look (s_fs s) q = look (s_fs s') q ->
+            look (s_fs (fst (step s o))) q = look (s_fs (fst (step s' o))) q.
+Proof.
+  intros s s' o Ht Hm Hr. destruct o as [tmp nm|p io n|p|p|p c|]; try discriminate; simpl; rewrite <- Ht.
+  - destruct (s_tr s) as [t|] eqn:Et; [|simpl; split; [reflexivity|]; split; [congruence | auto]].
+    destruct (add_file_ext (s_fs s) (s_fs s') t p io n) as [A [B C]].
+    + apply Hr. simpl. auto.
+    + apply Hr. simpl. auto.
+    + intros T HT. simpl in Hr. rewrite Et, HT in Hr. split; apply Hr; simpl; auto.
+    + destruct (add_file (s_fs s) t p io n) as [[g t1] r]. destruct (add_file (s_fs s') t p io n) as [[g' t1'] r'].
+      simpl in *. subst. auto.
+  - destruct (s_tr s) eqn:Et; simpl; (split; [reflexivity|]); (split; [congruence | auto]).
+  - destruct (s_tr s) eqn:Et; simpl; (split; [reflexivity|]); (split; [congruence | auto]).
+  - unfold write_to. rewrite <- (Hr p), <- (Hr (parent p)) by (simpl; auto).
+    destruct (look (s_fs s) p); [|simpl; auto|];
+      destruct (n_is_dir (look (s_fs s) (parent p))); simpl; (split; [reflexivity|]); (split; [reflexivity|]);
+      intros q Hq; rewrite ?look_put_file; destruct (path_eqb p q); auto.
+Qed.
+
+Lemma copy_out_ext : forall (NS : path -> Prop) loc l f f',
+  (forall q, NS q -> look f q = look f' q) ->
+  (forall dst, In dst l -> NS dst /\ NS (parent dst)) ->
+  (forall k src, dget loc k = Some src -> NS src) ->
+  snd (copy_out loc l f) = snd (copy_out loc l f') /\
+  forall q, NS q -> look (fst (copy_out loc l f)) q = look (fst (copy_out loc l f')) q.
+Proof.
+  intros NS loc. induction l as [|d r IH]; intros f f' Hf Hl Hloc; [simpl; auto|].
+  simpl. destruct (dget loc d) as [src|] eqn:Es; [|simpl; auto].
+  destruct (Hl d (or_introl eq_refl)) as [Nd Np]. unfold copy_file.
+  rewrite <- (Hf src (Hloc d src Es)), <- (Hf d Nd), <- (Hf (parent d) Np).
+  destruct (look f src); try (simpl; auto; fail).
+  assert (X : snd (copy_out loc r (put_file d c f)) = snd (copy_out loc r (put_file d c f')) /\
+              forall q, NS q -> look (fst (copy_out loc r (put_file d c f))) q =
+                                look (fst (copy_out loc r (put_file d c f'))) q).
+  { apply IH; [|intros; apply Hl; right; assumption | assumption].
+    intros q Hq. rewrite !look_put_file. destruct (path_eqb d q); auto. }
+  destruct (look f d); try (simpl; auto; fail);
+    destruct (n_is_dir (look f (parent d))); simpl; auto.
+Qed.
+
+Lemma snd_run_app_del : forall mid s,
+  snd (run s (mid ++ [Del])) = snd (run s mid) ++ [snd (step (fst (run s mid)) Del)].
+Proof.
+  induction mid as [|o r IH]; intro s.
+  - change (run s ([] ++ [Del])) with (let '(s1, x) := step s Del in (s1, [x])).
+    change (run s []) with (s, @nil out). cbn [fst snd]. destruct (step s Del). reflexivity.
+  - rewrite <- app_comm_cons, !run_cons. destruct (step s o) as [sa xa]. specialize (IH sa).
+    destruct (run sa (r ++ [Del])) as [sb xb]. destruct (run sa r) as [sc xc]. simpl in *.
+    rewrite IH. reflexivity.
+Qed.
+
+Lemma snd_let : forall (X : state * list out) a, snd (let '(s2, xs) := X in (s2, a :: xs)) = a :: snd X.
+Proof. intros [s2 xs] a. reflexivity. Qed.
+
+Section Stale.
+Variables (d : path) (n0 : Z).
+Let T := d ++ [n0].
+Let ns (q : path) : Prop := stale d T q = false.
+
+Lemma ns_prefix : forall q, is_prefix T q = true -> ns q.
+Proof. intros q H. unfold ns, stale. rewrite H. simpl. apply andb_false_r. Qed.
+
+Lemma ns_not_under : forall q, under d q = false -> ns q.
+Proof. intros q H. unfold ns, stale. rewrite H. reflexivity. Qed.
+
+Lemma stale_spec : forall q, stale d T q = true -> under d q = true /\ is_prefix T q = false.
+Proof.
+  intros q H. unfold stale in H. apply andb_true_iff in H. destruct H as [A B].
+  apply negb_true_iff in B. auto.
+Qed.
+
+Lemma ns_parent : forall q, ns q -> ns (parent q).
+Proof.
+  intros q H. destruct (is_prefix T q) eqn:Ep.
+  - apply prefix_cases in Ep. destruct Ep as [Ep|Ep].
+    + subst q. unfold T. rewrite parent_child. apply ns_not_under.
+      destruct (under d d) eqn:E; [|reflexivity]. exfalso. eapply under_neq; eauto.
+    + destruct (parent_under _ _ Ep) as [C|C].
+      * apply child_of_spec in C. destruct C as [n C]. subst q. rewrite parent_child.
+        apply ns_prefix. apply prefix_cases. auto.
+      * apply ns_prefix. apply under_is_prefix. assumption.
+  - apply ns_not_under. destruct (under d (parent q)) eqn:E; [|reflexivity]. exfalso.
+    assert (U : under d q = true).
+    { apply under_spec in E. destruct E as [n [r E]]. destruct q as [|a q'] using rev_ind.
+      - simpl in E. destruct d; discriminate.
+      - unfold parent in E. rewrite removelast_last in E. subst q'.
+        apply under_spec. exists n, (r ++ [a]). rewrite <- app_assoc. reflexivity. }
+    unfold ns, stale in H. rewrite U, Ep in H. discriminate.
+Qed.
+
+Definition Sim (s s' : state) : Prop :=
+  s_tr s = s_tr s' /\ forall q, ns q -> look (s_fs s) q = look (s_fs s') q.
+
+Definition ops_ns (mid : list op) : Prop := forall o p, In o mid -> In p (op_paths o) -> ns p.
+
+Lemma sim_step : forall s s' o,
+  Sim s s' -> Inv T s -> mid_op o = true -> (forall p, In p (op_paths o) -> ns p) ->
+  snd (step s o) = snd (step s' o) /\ Sim (fst (step s o)) (fst (step s' o)).
+Proof.
+  intros s s' o [Ht Hq] [t [Et [ET _]]] Hm Hp.
+  destruct (step_ext s s' o Ht Hm) as [A [B C]].
+  - intros q Hi. apply Hq. destruct o as [tmp nm|p io n|p|p|p c|]; simpl in Hi; try contradiction.
+    + rewrite Et, ET in Hi. simpl in Hi.
+      destruct Hi as [Hi|[Hi|[Hi|[Hi|[]]]]]; subst q.
+      * apply Hp. simpl. auto.
+      * apply ns_parent, Hp. simpl. auto.
+      * apply ns_prefix. apply prefix_cases. auto.
+      * apply ns_prefix. apply is_prefix_spec. eauto.
+    + destruct Hi as [Hi|[Hi|[]]]; subst q; [|apply ns_parent]; apply Hp; simpl; auto.
+  - split; [assumption|]. split; [assumption|]. intros q Hn. apply C, Hq, Hn.
+Qed.
+
+Lemma stale_frame : forall s o s1 x,
+  Inv T s -> mid_op o = true -> (forall p, In p (op_paths o) -> ns p) -> step s o = (s1, x) ->
+  forall q, stale d T q = true -> look (s_fs s1) q = look (s_fs s) q.
+Proof.
+  intros s o s1 x [t [Ht [HT [HF _]]]] Hm Hp Hs q Hq.
+  destruct (step_some s t T o s1 x Ht HT (proj1 HF) Hm Hs) as [t' [_ [_ Hc]]].
+  destruct Hc as [[E1 _] | [[p [c [Eo [_ [_ [_ [_ E]]]]]]] | [p [io [n [_ [_ [_ [_ [_ [E _]]]]]]]]]]].
+  - rewrite E1. reflexivity.
+  - rewrite E. rewrite eqb_if; [reflexivity|]. intro; subst q o.
+    assert (X : ns p) by (apply Hp; simpl; auto). unfold ns in X. congruence.
+  - rewrite E. rewrite eqb_if; [reflexivity|]. intro; subst q.
+    assert (X : ns (T ++ [n])) by (apply ns_prefix, is_prefix_spec; eauto). unfold ns in X. congruence.
+Qed.
+
+Lemma sim_run : forall mid s s',
+  forallb mid_op mid = true -> ops_ns mid -> Sim s s' -> Inv T s -> Inv T s' ->
+  snd (run s mid) = snd (run s' mid) /\ Sim (fst (run s mid)) (fst (run s' mid)) /\
+  (forall q, stale d T q = true ->
+     look (s_fs (fst (run s mid))) q = look (s_fs s) q /\ look (s_fs (fst (run s' mid))) q = look (s_fs s') q).
+Proof.
+  induction mid as [|o r IH]; intros s s' Hm Hn HS HI HI'; [simpl; auto|].
+  simpl in Hm. apply andb_true_iff in Hm. destruct Hm as [Hm1 Hm2].
+  assert (Hp : forall p, In p (op_paths o) -> ns p) by (intros p; apply (Hn o p); left; reflexivity).
+  destruct (sim_step s s' o HS HI Hm1 Hp) as [A B].
+  rewrite !run_cons. destruct (step s o) as [s1 x] eqn:E1. destruct (step s' o) as [s1' x'] eqn:E1'.
+  simpl in A, B. subst x'.
+  assert (HI1 := step_keeps_inv _ _ _ _ _ HI Hm1 E1). assert (HI1' := step_keeps_inv _ _ _ _ _ HI' Hm1 E1').
+  destruct (IH s1 s1' Hm2 (fun o' p Ho => Hn o' p (or_intror Ho)) B HI1 HI1') as [C [D F]].
+  destruct (run s1 r) as [s2 xs]. destruct (run s1' r) as [s2' xs']. simpl in *. subst xs'.
+  split; [reflexivity|]. split; [assumption|].
+  intros q Hq. destruct (F q Hq) as [F1 F2]. rewrite F1, F2.
+  split; eapply stale_frame; eauto.
+Qed.
+
+Lemma requested_paths : forall mid p, In p (requested mid) -> exists o, In o mid /\ In p (op_paths o).
+Proof.
+  intros mid p H. unfold requested in H. apply in_flat_map in H. destruct H as [o [Ho Hp]].
+  exists o. split; [assumption|]. destruct o as [| q io n | | | |]; try contradiction.
+  destruct io; [contradiction|]. assumption.
+Qed.
+
+Theorem tracker_independent_of_stale : forall f0 f0' mid,
+  wf f0 -> wf f0' -> look f0 d = Dir -> look f0 T = Absent -> forallb mid_op mid = true ->
+  (forall q, stale d T q = false -> look f0 q = look f0' q) ->
+  (forall o p, In o mid -> In p (op_paths o) -> stale d T p = false) ->
+  snd (run (start f0) (Create (Some d) n0 :: mid ++ [Del])) =
+  snd (run (start f0') (Create (Some d) n0 :: mid ++ [Del])) /\
+  (forall q, stale d T q = false ->
+     look (s_fs (life f0 (Some d) n0 mid)) q = look (s_fs (life f0' (Some d) n0 mid)) q) /\
+  (forall q, stale d T q = true ->
+     look (s_fs (life f0 (Some d) n0 mid)) q = look f0 q /\
+     look (s_fs (life f0' (Some d) n0 mid)) q = look f0' q).
+Proof.
+  intros f0 f0' mid W W' HD HA Hm Hagree Hops.
+  assert (HD' : look f0' d = Dir).
+  { rewrite <- Hagree; [assumption|]. apply ns_not_under.
+    destruct (under d d) eqn:E; [|reflexivity]. exfalso. eapply under_neq; eauto. }
+  assert (HA' : look f0' T = Absent).
+  { rewrite <- Hagree; [assumption|]. apply ns_prefix, prefix_cases. auto. }
+  set (s1 := {| s_fs := put_dir T f0; s_tr := Some (new_tracker (Some T)) |}).
+  set (s1' := {| s_fs := put_dir T f0'; s_tr := Some (new_tracker (Some T)) |}).
+  assert (HI1 : Inv T s1) by (apply create_inv; assumption).
+  assert (HI1' : Inv T s1') by (apply create_inv; assumption).
+  assert (HS1 : Sim s1 s1').
+  { split; [reflexivity|]. intros q Hq. simpl. rewrite !look_put_dir. destruct (path_eqb T q); auto. }
+  destruct (sim_run mid s1 s1' Hm Hops HS1 HI1 HI1') as [A [[Bt Bq] C]].
+  assert (HI2 := run_keeps_inv T mid s1 Hm HI1). assert (HI2' := run_keeps_inv T mid s1' Hm HI1').
+  destruct (del_spec T _ HI2) as [t [g [h [Ht [Hc [Hs [Hh [Hg _]]]]]]]].
+  destruct (del_spec T _ HI2') as [t' [g' [h' [Ht' [Hc' [Hs' [Hh' [Hg' _]]]]]]]].
+  rewrite Bt, Ht' in Ht. inversion Ht; subst t'. clear Ht.
+  assert (Hal : alive f0 (Some d) n0 mid = fst (run s1 mid)) by (apply alive_some; assumption).
+  assert (Hal' : alive f0' (Some d) n0 mid = fst (run s1' mid)) by (apply alive_some; assumption).
+  assert (Hout : forall q, In q (t_out t) -> ns q).
+  { intros q Hq. destruct (run_out_sub T mid s1 Hm HI1 q) as [X|X].
+    - unfold outs_of. rewrite Bt, Ht'. assumption.
+    - contradiction.
+    - destruct (requested_paths mid q X) as [o [Ho Hp]]. eapply Hops; eauto. }
+  split; [|split].
+  - (* outputs *)
+    rewrite !run_cons. unfold T in HA, HA'. rewrite (create_some f0 d n0 HD HA), (create_some f0' d n0 HD' HA').
+    fold T. fold s1. fold s1'.
+    rewrite !snd_let, !snd_run_app_del, A, Hs, Hs'. reflexivity.
+  - intros q Hq. rewrite !life_alive, Hal, Hal', Hs, Hs'. simpl. rewrite Hh, Hh'.
+    destruct (is_prefix T q); [reflexivity|].
+    destruct (copy_out_ext ns (t_loc t) (t_out t) (s_fs (fst (run s1 mid))) (s_fs (fst (run s1' mid)))) as [_ X].
+    + assumption.
+    + intros dst Hd. split; [|apply ns_parent]; apply Hout; assumption.
+    + intros k src Hk. destruct HI2' as [t2 [Ht2 [_ [_ [HL _]]]]]. rewrite Ht' in Ht2. inversion Ht2; subst t2.
+      apply ns_prefix, child_prefix. apply (HL k src Hk).
+    + rewrite Hc, Hc' in X. apply X. assumption.
+  - intros q Hq. destruct (stale_spec q Hq) as [Hu Hp]. destruct (C q Hq) as [C1 C2].
+    assert (Hno : ~ In q (t_out t)) by (intro Hi; apply Hout in Hi; unfold ns in Hi; congruence).
+    rewrite !life_alive, Hal, Hal', Hs, Hs'. simpl. rewrite Hh, Hh', Hp, Hg, Hg', C1, C2 by assumption.
+    simpl. rewrite !look_put_dir. apply not_prefix in Hp. rewrite !eqb_if by (intro; subst; tauto). auto.
+Qed.
+End Stale.
